@@ -12,7 +12,7 @@ import hashlib, json, os, re, shutil, subprocess, sys, time, glob, collections, 
 ROOT = os.path.dirname(os.path.dirname(os.path.abspath(__file__)))
 REPO = os.environ.get("CELMA_REPO", "/repo")
 OUT = os.environ.get("VERIF_OUT", os.path.join(ROOT, "out"))
-NCPU = min(16, os.cpu_count() or 4)
+NCPU = int(os.environ.get("VERIF_NCPU", min(16, os.cpu_count() or 4)))
 SEED = int(os.environ.get("VERIF_SEED", "20260101"))
 GUARD = "CELMA_VERIF"
 
@@ -480,9 +480,10 @@ def validate_trace(spec_dir, module, cfg, trace_path, workdir_, shards=NCPU, env
 # Known findings (DESIGN 1.6)
 # ----------------------------------------------------------------------------------------------
 def load_findings(prop):
-    p = os.path.join(ROOT, "known_findings.jsonl")
     res = []
-    if os.path.exists(p):
+    for p in [os.path.join(ROOT, "known_findings.jsonl")] + sorted(glob.glob(os.path.join(ROOT, "findings", "*.jsonl"))):
+        if not os.path.exists(p):
+            continue
         with open(p) as f:
             for ln in f:
                 ln = ln.strip()
